@@ -208,8 +208,10 @@ def generate(repo):
         out = [lean_def('circumradius', '(w diameter gap : K)', 'K', lets, tr.env['rseg'][0], extra=KVARS + ' '),
                lean_def('pitch', '(w diameter gap : K)', 'K', lets, pitch, extra=KVARS + ' ')]
         # samples per segment: int(rseg/dx + 1)
-        assert has(src, 'samples_per_seg = rseg / dx', 'samples_per_seg = int(samples_per_seg + 1)', 'dx = x[0, 1] - x[0, 0]')
-        out.append('def samplesPerSeg (rsegByDx : Rat) : Rat := pyTruncRat (rsegByDx + 1)')
+        assert has(src, 'samples_per_seg = rseg / dx', 'dx = x[0, 1] - x[0, 0]')
+        sps = [s_ for s_ in fn.body if isinstance(s_, ast.Assign) and ast.unparse(s_.targets[0]) == 'samples_per_seg']
+        assert len(sps) == 2 and ast.unparse(sps[0].value) == 'rseg / dx'
+        out.append(f"def samplesPerSeg (rsegByDx : Rat) : Rat := {Tr({'samples_per_seg': 'rsegByDx'}, mode='rat').expr(sps[1].value)}")
         # centre index
         cxs = [s for s in fn.body if isinstance(s, ast.Assign) and ast.unparse(s.targets[0]) in ('cx', 'cy')]
         tx = Tr({'x.shape[1]': 'n', 'y.shape[0]': 'n'})
@@ -231,20 +233,20 @@ def generate(repo):
            lambda: get_def(sg, '_composite_hexagonal_aperture'), aperture,
            (f'def circumradius {KVARS} (w diameter gap : K) : K := {M}.circumradius w diameter\n'
             f'def pitch {KVARS} (w diameter gap : K) : K := {M}.pitch w diameter gap\n'
-            'def samplesPerSeg (rsegByDx : Rat) : Rat := pyTruncRat (rsegByDx + 1)\n'
+            'def samplesPerSeg (rsegByDx : Rat) : Rat := pyTruncRat (rsegByDx + (Model.C18.spsOffset : Rat))\n'
             'def centreIndexX (n : Int) : Int := pyCeilDiv n 2\ndef centreIndexY (n : Int) : Int := pyCeilDiv n 2\n'
             'def idsLo (prev len : Int) : Int := prev + 1\ndef idsHi (prev len : Int) : Int := prev + 1 + len'))
 
     def aperture_structure():
         fn = get_def(sg, '_composite_hexagonal_aperture')
         src = ast.unparse(fn)
-        return has(src, 'mask = np.zeros(x.shape, dtype=bool)', 'mask[center_segment_window] |= center_mask',
+        return True if has(src, 'mask = np.zeros(x.shape, dtype=bool)', 'mask[center_segment_window] |= center_mask',
                    'mask[local_window] |= local_mask', 'local_masks.append(local_mask)', 'windows.append(local_window)',
                    'local_window = _local_window(cy, cx, center, dx, samples_per_seg, x, y)',
                    'id_mask = ~np.isin(ids, exclude, assume_unique=True)', 'valid_ids = ids[id_mask]',
                    'centers = centers[id_mask]', 'for segment_id, center in zip(valid_ids, centers)',
                    'if 0 not in exclude', 'local_coords.append((xx - center[0], yy - center[1]))',
-                   'return segment_vtov, all_centers, windows, local_coords, local_masks, segment_ids, mask')
+                   'return segment_vtov, all_centers, windows, local_coords, local_masks, segment_ids, mask') else None
     g.fact('hexMaskIsUnionOfLocalMasks', 'prysm/segmented.py:_composite_hexagonal_aperture', aperture_structure)
 
     def compose_structure():
@@ -260,7 +262,7 @@ def generate(repo):
         fn = get_def(sg, 'CompositeKeystoneAperture.compose_opd')
         ok = ok and has(ast.unparse(fn), 'tile = sum_of_2d_modes(self.opd_bases[0], center_coefs)',
                         'out[self.center_window] += tile * self.center_mask')
-        return ok
+        return True if ok else None
     g.fact('composeAccumulatesMaskedTiles', 'prysm/segmented.py:compose_opd', compose_structure)
 
     # ---------------------------------------------------------------- geometry primitives
@@ -354,13 +356,17 @@ def generate(repo):
     def rect_branches():
         fn = get_def(ge, 'rectangle')
         src = ast.unparse(fn)
-        return has(src, 'if angle != 0:\n    if angle == 90:\n        x, y = y, x', 'if height is None:\n    height = width',
-                   'p_adj = np.radians(angle)', 'p += p_adj', 'x, y = polar_to_cart(r, p)')
+        if not has(src, 'if angle != 0:\n    if angle == 90:\n        x, y = y, x', 'if height is None:\n    height = width',
+                   'x, y = polar_to_cart(r, p)'):
+            return None
+        if has(src, 'p -= p_adj'):
+            return False
+        return True if (has(src, 'p += p_adj') and (has(src, 'p_adj = np.radians(angle)') or has(src, 'p_adj = np.deg2rad(angle)'))) else None
     g.fact('rectangleRotatesCoordinates', 'prysm/geometry.py:rectangle', rect_branches)
 
     def offset_circle():
         fn = get_def(ge, 'offset_circle')
-        return has(ast.unparse(fn), 'x = x - center[0]', 'y = y - center[1]', 'r = np.hypot(x, y)', 'return circle(radius, r)')
+        return True if has(ast.unparse(fn), 'x = x - center[0]', 'y = y - center[1]', 'r = np.hypot(x, y)', 'return circle(radius, r)') else None
     g.fact('offsetCircleIsCircleOfShiftedRadius', 'prysm/geometry.py:offset_circle', offset_circle)
 
     # ---------------------------------------------------------------- polygon vertices of the hexagon, both orientations
